@@ -353,15 +353,54 @@ Theorem C03_create_right_partial : forall seps P p Q v fr,
     (P ++ (d_store v ++ mk_seps fr seps) ++ p :: Q, [mkdonor (d_node v) [] (d_first v) (d_last v)], Ok tt).
 Proof. exact create_right_frame. Qed.
 
-Theorem C03_remove_left_partial : forall P p S Q (cur : item),
-  NoDup (ids (P ++ p :: S ++ Q)) -> S <> [] -> snd cur = tid (last S dft) ->
-  remove_node SLeft (P ++ p :: S ++ Q) (tid p) cur = (P ++ p :: Q, Ok tt).
+(* removal (as repaired by fixes/optional-remove-keeps-separator-when-glued.patch): the child X leaves; the tokens G
+   between the pivot and the child leave with it unless the child touches what lies on its other side (the nearest
+   token with text there shows a character that is neither blank nor a bracket): then G stays, so that the root's
+   token list loses exactly one infix, G ++ X / X ++ G, or just X *)
+Theorem C03_remove_left_partial : forall P p G X Q (cur : item),
+  NoDup (ids (P ++ p :: G ++ X ++ Q)) -> X <> [] -> fst cur = tid (hd dft X) -> snd cur = tid (last X dft) ->
+  remove_node SLeft (P ++ p :: G ++ X ++ Q) (tid p) cur =
+    (P ++ p :: (if touches true Q then G else []) ++ Q, Ok tt).
 Proof. exact remove_left_frame. Qed.
 
-Theorem C03_remove_right_partial : forall P S p Q (cur : item),
-  NoDup (ids (P ++ S ++ p :: Q)) -> S <> [] -> fst cur = tid (hd dft S) ->
-  remove_node SRight (P ++ S ++ p :: Q) (tid p) cur = (P ++ p :: Q, Ok tt).
+Theorem C03_remove_right_partial : forall P X G p Q (cur : item),
+  NoDup (ids (P ++ X ++ G ++ p :: Q)) -> X <> [] -> fst cur = tid (hd dft X) -> snd cur = tid (last X dft) ->
+  remove_node SRight (P ++ X ++ G ++ p :: Q) (tid p) cur =
+    (P ++ (if touches false (rev P) then G else []) ++ p :: Q, Ok tt).
 Proof. exact remove_right_frame. Qed.
+
+(* the two cases apart: next to a blank, a bracket or the end of the store everything between pivot and child goes *)
+Theorem C03_remove_left_drops_partial : forall P p G X Q (cur : item),
+  NoDup (ids (P ++ p :: G ++ X ++ Q)) -> X <> [] -> fst cur = tid (hd dft X) -> snd cur = tid (last X dft) ->
+  touches true Q = false ->
+  remove_node SLeft (P ++ p :: G ++ X ++ Q) (tid p) cur = (P ++ p :: Q, Ok tt).
+Proof. exact remove_left_drops_separators. Qed.
+
+Theorem C03_remove_right_drops_partial : forall P X G p Q (cur : item),
+  NoDup (ids (P ++ X ++ G ++ p :: Q)) -> X <> [] -> fst cur = tid (hd dft X) -> snd cur = tid (last X dft) ->
+  touches false (rev P) = false ->
+  remove_node SRight (P ++ X ++ G ++ p :: Q) (tid p) cur = (P ++ p :: Q, Ok tt).
+Proof. exact remove_right_drops_separators. Qed.
+
+(* `    Assets:Cash 10CAD`, number = None: only `10` leaves;  `    Assets:Cash 10 CAD`: ` 10` leaves *)
+Definition ex_posting (glued : bool) : doc :=
+  [mktok 1 KWhitespace [32;32;32;32]; mktok 2 KOther [65;115;115;101;116;115;58;67;97;115;104]; mktok 3 KWhitespace [32];
+   mktok 4 KOther [49;48]] ++ (if glued then [] else [mktok 5 KWhitespace [32]]) ++
+  [mktok 6 KOther [67;65;68]; mktok 7 KPlaceholder []; mktok 8 KNewline [10]].
+Example C03_remove_left_nonvacuous :
+  map tid (fst (remove_node SLeft (ex_posting true) 2 (4, 4))) = [1; 2; 3; 6; 7; 8] /\
+  map tid (fst (remove_node SLeft (ex_posting false) 2 (4, 4))) = [1; 2; 5; 6; 7; 8] /\
+  NoDup (ids (ex_posting true)).
+Proof. split; [vm_compute; reflexivity|]. split; [vm_compute; reflexivity|]. repeat constructor; simpl; intuition lia. Qed.
+
+(* `{12.34 # 56.78 USD}`, number_per = None: a bracket needs no separator, `12.34 ` leaves;  `, 12.34 # ...` glued to
+   a letter: only `12.34` leaves *)
+Example C03_remove_right_nonvacuous :
+  let d (c : Z) := [mktok 1 KOther [c]; mktok 2 KPlaceholder []; mktok 3 KOther [49;50]; mktok 4 KWhitespace [32];
+                    mktok 5 KOther [35]; mktok 6 KWhitespace [32]; mktok 7 KOther [53]] in
+  map tid (fst (remove_node SRight (d 123) 5 (3, 3))) = [1; 2; 5; 6; 7] /\
+  map tid (fst (remove_node SRight (d 65) 5 (3, 3))) = [1; 2; 4; 5; 6; 7].
+Proof. split; vm_compute; reflexivity. Qed.
 
 (* ---- non-vacuity: `open Assets:Foo  AAA, BBB` as tokens 1..8, placeholder 3, items AAA(5) BBB(8) -- *)
 Definition ex_doc : doc :=
